@@ -90,6 +90,16 @@ func runC07(c *Ctx) {
 					} else if g, ok := x.Addr.(*ssa.Global); ok && fn.Name() != "init" {
 						key = "global:" + g.Name()
 					}
+				case *ssa.Call:
+					// a method of a container from outside the module called on an engine global
+					// (sync.Map.Store, LoadOrStore, a pool, an atomic): process-wide mutable state
+					if callee := x.Call.StaticCallee(); callee != nil && !inModule(callee) && len(x.Call.Args) > 0 && fn.Name() != "init" {
+						if g, ok := x.Call.Args[0].(*ssa.Global); ok && g.Pkg != nil && enginePkgs[shortPkg(g.Pkg.Pkg.Path())] {
+							if nm := callee.Name(); nm != "Load" && nm != "Range" && nm != "Len" {
+								key = "global:" + g.Name() + "." + nm + "()"
+							}
+						}
+					}
 				case *ssa.MapUpdate:
 					if l, ok := x.Map.(*ssa.UnOp); ok {
 						if fa, ok := l.X.(*ssa.FieldAddr); ok {
@@ -184,6 +194,26 @@ func runC07(c *Ctx) {
 			return
 		}
 		seenT[k] = true
+		// two serialised fields of one struct with the same JSON name: encoding/json drops BOTH,
+		// silently, on the way out and on the way in
+		jsonNames := map[string]string{}
+		for i := 0; i < st.NumFields(); i++ {
+			f := st.Field(i)
+			if !f.Exported() || f.Embedded() {
+				continue
+			}
+			jn := jsonName(st.Tag(i))
+			if jn == "-" {
+				continue
+			}
+			if jn == "" {
+				jn = f.Name()
+			}
+			if other, dup := jsonNames[jn]; dup && !under {
+				badT = append(badT, fmt.Sprintf("%s.%s and %s.%s share the JSON name %q: neither is serialised", name, other, name, f.Name(), jn))
+			}
+			jsonNames[jn] = f.Name()
+		}
 		for i := 0; i < st.NumFields(); i++ {
 			f := st.Field(i)
 			key := name + "." + f.Name()
@@ -452,7 +482,47 @@ func runC07Load(c *Ctx, ea *engineAnchors) {
 				}
 			}
 		}
-		c.check(len(bad) == 0, "load-is-identity", fnKey(ld), p.FnPos(ld), "adopts the state unchanged: only the engine's own wiring is written", "a rebuilt game differs from the serialised one", uniq(bad, 3)...)
+		// and the wiring is rebuilt for every player of the adopted state, unconditionally: a wrapper
+		// kept from before still points into the state that was replaced
+		{
+			s := newSumm(p, 0)
+			s.EngineAliases = true
+			owner := ld
+			s.HelperInline = func(f *ssa.Function) bool {
+				return privateHelper(owner, f) && len(findLoops(f)) == 0 && ix.Info[f] != nil && len(ix.Info[f].Writes) == 0
+			}
+			nLoop := 0
+			for _, l := range s.loops(ld) {
+				ri := analyseRange(l)
+				if !loadsField(ri.Coll, "pokerface.GameState.Players") {
+					continue
+				}
+				nLoop++
+				if !ri.Full || len(l.Exits) != 1 {
+					bad = append(bad, "the wiring is not rebuilt for every player of the state")
+				}
+				body, _ := s.LoopBody(ld, l)
+				for _, bp := range body {
+					wired := false
+					for _, e := range bp.Events {
+						if e.Kind == "call" && e.Fn != nil && ix.Info[e.Fn] != nil && len(ix.Info[e.Fn].TWrites) > 0 {
+							for _, a := range e.Args {
+								if strings.Contains(a.String(), "[iter:") {
+									wired = true
+								}
+							}
+						}
+					}
+					if !wired && bp.End == "continue" {
+						bad = append(bad, "a player of the adopted state keeps its old wiring under ["+bp.CondString()+"]")
+					}
+				}
+			}
+			if nLoop == 0 {
+				bad = append(bad, "no loop over the players of the adopted state rebuilds the wiring")
+			}
+		}
+		c.check(len(bad) == 0, "load-is-identity", fnKey(ld), p.FnPos(ld), "adopts the state unchanged: only the engine's own wiring is written, and it is rebuilt for every player", "a rebuilt game differs from the serialised one", uniq(bad, 3)...)
 	}
 }
 
